@@ -55,9 +55,19 @@ def main():
             out['demo_with_change'] = r1.returncode
             out['demo_with_change_runs_needed'] = attempt
             if a.suite:
-                rs = sh(PY, '-m', 'pytest', '-q', '-p', 'no:cacheprovider', '--timeout=900', '-q', env=env, cwd=SCRATCH, timeout=1800)
-                tail = [l for l in rs.stdout.splitlines() if ' passed' in l or ' failed' in l]
-                out['suite_with_change'] = tail[-1] if tail else rs.stdout[-200:]
+                # (tests/test_semaphores.py is wall-clock sensitive and fails on a loaded machine - also on the unchanged tree: a run
+                # with failures is repeated, up to 3 runs; every run's summary line is kept)
+                lines = []
+                for _run in range(3):
+                    rs = sh(PY, '-m', 'pytest', '-q', '-p', 'no:cacheprovider', '--timeout=900', '-q', env=env, cwd=SCRATCH, timeout=1800)
+                    tail = [l for l in rs.stdout.splitlines() if ' passed' in l or ' failed' in l]
+                    lines.append(tail[-1] if tail else rs.stdout[-200:])
+                    if ' failed' not in lines[-1] and ' error' not in lines[-1]:
+                        break
+                    lines[-1] += ' [' + '; '.join(l for l in rs.stdout.splitlines() if l.startswith('FAILED'))[:300] + ']'
+                out['suite_with_change'] = lines[-1]
+                if len(lines) > 1:
+                    out['suite_earlier_runs_under_load'] = lines[:-1]
                 print(sid, 'suite:', out['suite_with_change'])
             props = [prop] + ([p for p in [f'C{i:02d}' for i in range(1, 21)] if p != prop] if a.all_checks else meta.get('also_check', []))
             for p in props:
